@@ -21,7 +21,7 @@ func (r *rng) intn(n int) int {
 	return int(r.next() % uint64(n))
 }
 func (r *rng) chance(pct int) bool { return r.intn(100) < pct }
-func pick[T any](r *rng, xs []T) T  { return xs[r.intn(len(xs))] }
+func pick[T any](r *rng, xs []T) T { return xs[r.intn(len(xs))] }
 
 // sb builds one engine scenario.
 type sb struct {
@@ -30,9 +30,17 @@ type sb struct {
 	nextErr int
 }
 
-func newSB() *sb { return &sb{sc: EScen{Runs: 1, Script: []SEntry{}}, nextTok: 1, nextErr: 1} }
+// the error ids of a scenario start at a different residue (mod 8 = the flavour of the Go error,
+// val.go realiseErr) from scenario to scenario, so that "the first failure of the scenario" is not
+// always the same kind of error
+var sbCount int
 
-func (b *sb) tok() Val { t := vTok(b.nextTok); b.nextTok++; return t }
+func newSB() *sb {
+	sbCount++
+	return &sb{sc: EScen{Runs: 1, Script: []SEntry{}}, nextTok: 1, nextErr: 1 + sbCount%8}
+}
+
+func (b *sb) tok() Val   { t := vTok(b.nextTok); b.nextTok++; return t }
 func (b *sb) errID() int { e := b.nextErr; b.nextErr++; return e }
 
 func (b *sb) add(d NodeDef) int {
@@ -96,8 +104,8 @@ func (d NodeDef) label() string {
 
 // a case: scenario plus the observation of the implementation
 type ECase struct {
-	ID   int    `json:"id"`
-	Scen EScen  `json:"scen"`
-	Obs  EObs   `json:"obs"`
+	ID   int      `json:"id"`
+	Scen EScen    `json:"scen"`
+	Obs  EObs     `json:"obs"`
 	Tags []string `json:"tags,omitempty"`
 }
